@@ -127,11 +127,7 @@ def check_timing(ro, order, variants, sd, tt, mt_, started, ended, ro_start, N):
                 off = t
                 t = t + d
             else:
-                off = g['offset']   # unspecified when some story has no duration
-                if off is not None and pos > 0 and all(x is not None for x in durs[:pos]):
-                    if not same(off, sum(durs[:pos])):
-                        sig = 'offset-%d' % pos
-                        break
+                off = g['offset']   # unspecified by the property when some story has no duration
             if started[i] is not None:
                 st = STAMP_VALUES[started[i]]
             elif ro_start is not None and off is not None:
@@ -157,8 +153,6 @@ def check_timing(ro, order, variants, sd, tt, mt_, started, ended, ro_start, N):
         if sig is None:
             if all_have and not same(got['duration'], sum(durs) if durs else 0):
                 sig = 'ro-duration'
-            elif not all_have and got['duration'] is not None:
-                sig = 'ro-duration-not-None'
             elif not same(got['start'], ro_start):
                 sig = 'ro-start'
             elif N and not same(got['end'], exp_st[-1][3]):
